@@ -34,6 +34,9 @@ def generate(R, tier, focus):
             inner['obs'][0]['events'] = rngsim.gen_obs(R, inner, 12, allow_zero_rate_bins=False) or \
                 [gen.gen_event(R, inner['region'], inner['mags'], eid='o0')[0]]
         channel = R.choice(('events', 'cells', 'cells'))
+        # benchmark forecast for the paired T-test: independent positive rates (a benchmark proportional to the
+        # forecast makes the variance of the log-ratios vanish and the t statistic ill-conditioned)
+        inner['bench'] = [[10 ** R.uniform(-3, 1) for _ in row] for row in inner['rates']]
         nt = R.randint(1, 5)
         tests = [{'test': R.choice(GRID_TESTS), 'seed': R.choice((0, 1, 7, R.randint(2, 10 ** 6))), 'nsim': R.randint(1, 8)}
                  for _ in range(nt)]
@@ -73,6 +76,8 @@ def permuted(scn):
             w['region']['quadkeys'] = [w['region']['quadkeys'][i] for i in perm]
         if 'rates' in w:
             w['rates'] = [w['rates'][i] for i in perm]
+        if 'bench' in w:
+            w['bench'] = [w['bench'][i] for i in perm]
         info['perm'] = perm
     elif ch == 'catalogs':
         J = len(w['cats'])
@@ -107,8 +112,7 @@ def run_grid(test, world, obs_events, seed, nsim):
     if test == 'NBD':
         return be.negative_binomial_number_test(fc, cat, float(numpy.sum(fc.data)) * 2.5 + 1.0)
     if test == 'T':
-        bench = build.make_gridded(world, rates=[[v * 0.5 + 1e-3 for v in row] for row in world['rates']], name='bench')
-        return pe.paired_t_test(fc, bench, cat)
+        return pe.paired_t_test(fc, build.make_gridded(world, rates=world['bench'], name='bench'), cat)
     return rngsim.run_gridded_test(test, fc, cat, nsim, seed, None)
 
 
@@ -209,14 +213,17 @@ def _execute(scn, ctx, store, rng):
                     ctx.violate('C20', 'bit_identical', 'events:%s:draw-stream-differs' % test, {})
                     continue
             else:
-                if not _close_field(vb['quantile'], vp['quantile']) or not _close_field(vb['dist'], vp['dist']):
+                # paired T: sums over events in another order; the t statistic divides by a variance
+                # obtained by cancellation, so "to rounding" is 1e-6 here
+                if not _close_field(vb['quantile'], vp['quantile'], 1e-6) or not _close_field(vb['dist'], vp['dist'], 1e-6):
                     ctx.violate('C20', 'analytic', 'events:%s' % test, {'base': vb['quantile'], 'perm': vp['quantile']})
         else:
             if not sim_based:
                 # analytic quantiles / simulation-free distributions
                 if test in ('N', 'NBD', 'T'):
-                    if not _close_field(vb['quantile'], vp['quantile'], 1e-7) or \
-                            not _close_field(list(vb['dist'])[-1:], list(vp['dist'])[-1:], 1e-7):
+                    tolq = 1e-6 if test == 'T' else 1e-7
+                    if not _close_field(vb['quantile'], vp['quantile'], tolq) or \
+                            not _close_field(list(vb['dist'])[-1:], list(vp['dist'])[-1:], tolq):
                         ctx.violate('C20', 'analytic', '%s:%s:quantile' % (ch, test),
                                     {'base': vb['quantile'], 'perm': vp['quantile']})
                 else:
@@ -226,8 +233,10 @@ def _execute(scn, ctx, store, rng):
                     elif not _close_field(vb['quantile'], vp['quantile']):
                         # ties within rounding can move an empirical quantile: only judged when the
                         # observed value is separated from every distribution entry
-                        if vb['obs'] is not None and all(abs(x - vb['obs']) > 1e-9 * max(1.0, abs(x)) or x == vb['obs']
-                                                         for x in vb['dist'] if x == x):
+                        def separated(v):
+                            return v['obs'] is not None and all(
+                                abs(x - v['obs']) > 1e-9 * max(1.0, abs(x)) for x in v['dist'] if x == x)
+                        if separated(vb) and separated(vp):
                             ctx.violate('C20', 'multiset', '%s:%s:quantile' % (ch, test),
                                         {'base': vb['quantile'], 'perm': vp['quantile']})
 
